@@ -27,9 +27,16 @@ func (p *Prog) TL(level string) (*tlEngine, error) {
 	if level == "64" {
 		lv = l64
 	}
+	if level == "B32" {
+		// the 32-bit bit-sliced index: same table type, functions of package BitSliceIndexing,
+		// 32-bit API calls summarised by the level-32 engine
+		cp := *l32
+		cp.name, cp.pkgShort = "B32", "BitSliceIndexing"
+		lv = &cp
+	}
 	e := &tlEngine{p: p, lv: lv, own: p.OWN(), sums: map[string]*tlSummary{}, field: map[string]atomSet{}, chanJ: map[string]atomSet{},
 		sites: map[string]*tlSite{}, ctxs: map[*ssa.Function]map[string]map[int]bool{}, localOwned: map[string]bool{}}
-	if level == "64" {
+	if level == "64" || level == "B32" {
 		b, err := p.TL("32")
 		if err != nil {
 			return nil, err
@@ -65,6 +72,30 @@ func (p *Prog) TL(level string) (*tlEngine, error) {
 			break
 		}
 	}
+	// second phase: the result-root summaries are now stable; recompute the "may change table"
+	// summaries from scratch so that entries produced while callee results were still unresolved
+	// (and then kept alive by recursion) disappear — the least fixpoint is wanted.
+	for _, s := range e.sums {
+		s.mutTab = nil
+	}
+	for round := 0; round < 30; round++ {
+		e.changed = false
+		e.sites = map[string]*tlSite{}
+		e.order = nil
+		for _, f := range e.fns {
+			var cs []string
+			for c := range e.ctxs[f] {
+				cs = append(cs, c)
+			}
+			sort.Strings(cs)
+			for _, c := range cs {
+				e.analyse(f, e.ctxs[f][c], c)
+			}
+		}
+		if !e.changed {
+			break
+		}
+	}
 	if tlCache[p] == nil {
 		tlCache[p] = map[string]*tlEngine{}
 	}
@@ -79,7 +110,7 @@ func (e *tlEngine) inScope(f *ssa.Function) bool {
 // kernel functions: methods of the container kinds (level 32). Their receivers and operands are
 // parameters; the write discipline inside them is the kernel level's business (A1/A6.kernel).
 func (e *tlEngine) isKernelFn(f *ssa.Function) bool {
-	if e.lv.name != "32" {
+	if e.lv.name != "32" && e.lv.name != "B32" {
 		return false
 	}
 	g := f
@@ -859,7 +890,7 @@ func (t *tlFunc) apiStore(ins ssa.Instruction, c *ssa.CallCommon, mk func(string
 		return
 	}
 	args := c.Args
-	s := t.e.summary(f, boolConstArgs(f, args))
+	s := t.e.summary(f, boolCtxArgs(t, f, args))
 	for _, rq := range s.reqs {
 		if rq.tabParam >= len(args) || rq.valParam >= len(args) {
 			continue
@@ -1126,8 +1157,11 @@ func (t *tlFunc) collectMutTab() {
 	lv := t.e.lv
 	mt := map[string]string{}
 	add := func(tab, why string) {
-		if isLocalRoot(tab) {
+		if isLocalRoot(tab) || t.rootLocal(tab) {
 			return
+		}
+		if len(why) > 400 {
+			why = why[:400] + " …"
 		}
 		if _, ok := mt[tab]; !ok {
 			mt[tab] = why
@@ -1197,15 +1231,44 @@ func (t *tlFunc) collectMutTab() {
 				}
 				// callee summaries
 				for _, f := range callees {
-					if c.IsInvoke() || !inRepo(f) || f.Blocks == nil || !t.e.inScope(f) || t.e.isKernelFn(f) {
+					if c.IsInvoke() || !inRepo(f) || f.Blocks == nil {
 						continue
 					}
-					s := t.e.summary(f, boolConstArgs(f, args))
-					for tab, w := range s.mutTab {
-						if pi, path, ok := rootParam(tab); ok && pi < len(args) {
-							add(t.root(args[pi])+path, fname(f)+" @"+pos(ins)+" -> "+w)
-						} else if !ok {
-							add(tab, fname(f)+" @"+pos(ins)+" -> "+w) // unknown / heap-rooted table stays unknown
+					if !t.e.inScope(f) {
+						// a function of the lower level (32-bit API): its level-32 summary tells which of its table parameters change
+						if t.e.base != nil && t.e.lv.name == "B32" && t.e.base.inScope(f) {
+							if s := t.e.base.sums[t.e.base.sumKey(f, "")]; s != nil {
+								for tab, w := range s.mutTab {
+									if mapped, ok := substRoot(tab, func(k int) (string, bool) {
+										if k < len(args) {
+											return t.root(args[k]), true
+										}
+										return "", false
+									}); ok {
+										add(mapped, fname(f)+" @"+pos(ins)+" -> "+w)
+									}
+								}
+							}
+						}
+						continue
+					}
+					if t.e.isKernelFn(f) {
+						continue
+					}
+					// correlated phi arguments (prefix / owned chosen together on each incoming edge) are split per edge
+					for _, eargs := range expandPhiArgs(args) {
+						s := t.e.summary(f, boolCtxArgs(t, f, eargs))
+						for tab, w := range s.mutTab {
+							mapped, _ := substRoot(tab, func(k int) (string, bool) {
+								if k < len(eargs) {
+									return t.root(eargs[k]), true
+								}
+								return "", false
+							})
+							if mc, isMC := c.Value.(*ssa.MakeClosure); isMC {
+								mapped = t.mapFreeVars(mapped, f, mc.Bindings)
+							}
+							add(mapped, fname(f)+" @"+pos(ins)+" -> "+w)
 						}
 					}
 				}
@@ -1214,10 +1277,9 @@ func (t *tlFunc) collectMutTab() {
 				cf := x.Fn.(*ssa.Function)
 				s := t.e.summary(cf, nil)
 				for tab, w := range s.mutTab {
-					if strings.HasPrefix(tab, "FV") || strings.HasPrefix(tab, "M(FV") {
-						add("closure:"+tab, fname(cf)+" -> "+w)
-					} else if _, _, ok := rootParam(tab); !ok {
-						add(tab, fname(cf)+" -> "+w)
+					mapped := t.mapFreeVars(tab, cf, x.Bindings)
+					if _, _, isParam := rootParam(mapped); isParam && !strings.HasPrefix(tab, "P") || !isParam {
+						add(mapped, fname(cf)+" -> "+w)
 					}
 				}
 			}
@@ -1294,6 +1356,36 @@ func (t *tlFunc) extractSummary() {
 	if pairOK {
 		sum.pair = [2]int{0, 1}
 	}
+	// tables the returned pointers may denote
+	sum.retTab = make([][]string, nres)
+	for ri := 0; ri < nres; ri++ {
+		if _, isPtr := f.Signature.Results().At(ri).Type().Underlying().(*types.Pointer); !isPtr {
+			continue
+		}
+		set := map[string]bool{}
+		for _, r := range rets {
+			root := t.root(r.Results[ri])
+			var parts []string
+			if strings.HasPrefix(root, "phi(") {
+				parts = splitPhi(root)
+			} else {
+				parts = []string{root}
+			}
+			for _, pr := range parts {
+				switch {
+				case pr == "nil" || pr == "phi":
+				case isLocalRoot(pr) || t.rootLocal(pr):
+					set["L"] = true
+				default:
+					set[pr] = true
+				}
+			}
+		}
+		for k := range set {
+			sum.retTab[ri] = append(sum.retTab[ri], k)
+		}
+		sort.Strings(sum.retTab[ri])
+	}
 	// facts established on every return
 	if len(rets) > 0 {
 		var acc factSet
@@ -1351,4 +1443,94 @@ func (e *tlEngine) report(rule string, res *RuleResult) {
 			res.bad(construct, pos, s.note)
 		}
 	}
+}
+
+// splitPhi splits "phi(a,b,phi(c,d))" into its leaves.
+func splitPhi(s string) []string {
+	s = strings.TrimSuffix(strings.TrimPrefix(s, "phi("), ")")
+	var out []string
+	depth, start := 0, 0
+	for i, r := range s {
+		switch r {
+		case '(':
+			depth++
+		case ')':
+			depth--
+		case ',':
+			if depth == 0 {
+				out = append(out, s[start:i])
+				start = i + 1
+			}
+		}
+	}
+	out = append(out, s[start:])
+	var flat []string
+	for _, o := range out {
+		if strings.HasPrefix(o, "phi(") {
+			flat = append(flat, splitPhi(o)...)
+		} else {
+			flat = append(flat, o)
+		}
+	}
+	return flat
+}
+
+// expandPhiArgs: when several arguments are phis of one block, the call is analysed once per
+// incoming edge with each phi replaced by its value on that edge (the values are chosen together).
+func expandPhiArgs(args []ssa.Value) [][]ssa.Value {
+	var blk *ssa.BasicBlock
+	n := 0
+	for _, a := range args {
+		if ph, ok := a.(*ssa.Phi); ok {
+			if blk == nil {
+				blk = ph.Block()
+			}
+			if ph.Block() == blk {
+				n++
+			}
+		}
+	}
+	if n < 2 || blk == nil || len(blk.Preds) > 6 {
+		return [][]ssa.Value{args}
+	}
+	var out [][]ssa.Value
+	for k := range blk.Preds {
+		e := make([]ssa.Value, len(args))
+		for i, a := range args {
+			e[i] = a
+			if ph, ok := a.(*ssa.Phi); ok && ph.Block() == blk {
+				e[i] = ph.Edges[k]
+			}
+		}
+		out = append(out, e)
+	}
+	return out
+}
+
+// mapFreeVars rewrites a closure-relative root: FV<k> is the k-th binding; a binding that is the
+// address of a local variable holding a pointer makes M(FV<k>) the value stored in that variable.
+func (t *tlFunc) mapFreeVars(tab string, cf *ssa.Function, bindings []ssa.Value) string {
+	for k := range cf.FreeVars {
+		if k >= len(bindings) {
+			break
+		}
+		tok := fmt.Sprintf("FV%d", k)
+		if !strings.Contains(tab, tok) {
+			continue
+		}
+		b := bindings[k]
+		if al, ok := b.(*ssa.Alloc); ok {
+			var stored []string
+			for _, r := range *al.Referrers() {
+				if st, ok := r.(*ssa.Store); ok && st.Addr == al {
+					stored = append(stored, t.root(st.Val))
+				}
+			}
+			if len(stored) == 1 {
+				tab = strings.ReplaceAll(tab, "M("+tok+")", stored[0])
+			}
+		}
+		tab = strings.ReplaceAll(tab, tok, t.root(b))
+	}
+	return tab
 }
